@@ -295,6 +295,25 @@ impl<W: Write> Ctx<W> {
                     None => self.emit(json!({"ev":"rload","dst":dst,"ok":false,"val":[],"want":want})),
                 }
                 self.regs[dst] = r;
+                // The hook builds intervals through the crate's own constructor.  If that rejects a two-sided
+                // interval, establish the operand through the public API instead: the intersection of its two
+                // one-sided halves (an ordinary `intersect` call, judged like any other).
+                if self.regs[dst].is_none() {
+                    if let Some(b) = bounds_from_json(&want) {
+                        if b.len() == 1 && b[0].0.is_some() && b[0].1.is_some() {
+                            let lo = vec![(b[0].0.clone(), None)];
+                            let up = vec![(None, b[0].1.clone())];
+                            let halves = self.call("verif_from_bounds", || (Range::verif_from_bounds(&lo), Range::verif_from_bounds(&up)));
+                            if let Some((Some(l), Some(u))) = halves {
+                                self.emit(json!({"ev":"rload","dst":NREG - 1,"ok":true,"val":range_to_json(&l),"want":bounds_to_json(&lo)}));
+                                self.emit(json!({"ev":"rload","dst":NREG,"ok":true,"val":range_to_json(&u),"want":bounds_to_json(&up)}));
+                                self.regs[NREG - 1] = Some(l);
+                                self.regs[NREG] = Some(u);
+                                self.step(&json!({"c":"isect","dst":dst,"a":NREG - 1,"b":NREG}));
+                            }
+                        }
+                    }
+                }
             }
             "rparse" => {
                 let dst = gi("dst");
@@ -1021,7 +1040,18 @@ impl<W: Write> Ctx<W> {
         let mut times = Vec::new();
         for k in 0..5 {
             let target = n0 << k;
-            let text = unit.repeat((target / unit.len().max(1)).max(1));
+            // a unit containing `{i}` is instantiated with a running counter, so that all pieces are pairwise different
+            let text = if unit.contains("{i}") {
+                let mut t = String::with_capacity(target + 32);
+                let mut i = 0u64;
+                while t.len() < target {
+                    t.push_str(&unit.replace("{i}", &i.to_string()));
+                    i += 1;
+                }
+                t
+            } else {
+                unit.repeat((target / unit.len().max(1)).max(1))
+            };
             let mut best = u64::MAX;
             for _rep in 0..3 {
                 let t0 = Instant::now();
